@@ -33,6 +33,8 @@ __contains__ / LookupSector / CurrencyZone / Region / _GenerateFullSectorCodes /
   FullCode_Rule                   generated full codes are '<country>_<sector>' iff the model has more than one country
 Conformance clauses (DRIFT only): DefaultCurrency = currency of the country added last, order of countries in a zone
 and of GetSectors(), stored FullCode between two generations (stale / empty), id counter, sector.CurrencyZone.
+Replay of a replay file written for a violation of this extension (its case carries "ext"):
+  /venv/bin/python harness/lookupcheck.py --replay <replay file>     (exit 1 = still violated, 0 = holds now)
 """
 import concurrent.futures
 import json
@@ -48,9 +50,9 @@ if __name__ == '__main__':
 from harness import core  # noqa: E402
 
 PREFIX = 'C18_Ext_'
-CCODES = ['A', 'B', 'C', 'NOPE']
-SCODES = ['HH', 'GOV', 'NOPE']
-FULLS = SCODES + [c + '_' + s for c in CCODES[:3] for s in SCODES[:2]]
+CCODES = ['A', 'B', 'C', 'NOPE', 'a', 'AB']           # declared codes + never declared ones (other case, a longer code)
+SCODES = ['HH', 'GOV', 'NOPE', 'hh', 'H']
+FULLS = SCODES + [c + '_' + s for c in CCODES[:3] for s in SCODES[:2]] + ['A_H', 'a_hh', 'AHH']
 CURS = ['X', 'A', 'B', 'C', 'LOCAL']
 
 
@@ -292,15 +294,15 @@ def _compact(events):
     return out
 
 
-def _first_bad_answer(events, clause_detail):
-    """for the report: the recorded answers of the query kind the verdict names"""
-    kind = clause_detail.split(':')[0]
+def _first_bad_answer(events, what, where):
+    """for the report: the recorded answers to the query the verdict names (what = '<kind>:...', where = 'cc/code/n/m')"""
+    kind = what.split(':')[0]
     rows = []
     for i, e in enumerate(events):
         for a in e['answers']:
-            if a[0] == kind:
-                rows.append({'step': i, 'query': a[:5], 'observed': a[5:]})
-    return rows[:60]
+            if a[0] == kind and (not where or '%s/%s/%d/%d' % tuple(a[1:5]) == where):
+                rows.append({'after_call': i, 'query': a[:5], 'observed': dict(zip(('kind', 'ordinal', 'exc', 'flag', 'list'), a[5:]))})
+    return rows[:20]
 
 
 def nontrivial(hist):
@@ -332,10 +334,12 @@ def judge(rep, behs):
         if kind == 'property':
             n_prop += 1
             name, _, what = clause.partition('@')
-            full = dict(case, observed=_compact(evs), answers=_first_bad_answer(evs, what))
+            what, _, where = what.partition('#')
+            full = dict(case, observed=_compact(evs), answers=_first_bad_answer(evs, what, where))
             rep.violate(PREFIX + name, 'lookup:%s:%s' % (name, what), full,
-                        detail='Lookup extension, %s (%s); history %s' % (
-                            name, what, json.dumps([[a['a'], a['cc'], a['code'], a['cur']] for a in behs[i]['hist']])))
+                        detail='Lookup extension, %s (%s%s); history %s' % (
+                            name, what, ' query ' + where if where else '',
+                            json.dumps([[a['a'], a['cc'], a['code'], a['cur']] for a in behs[i]['hist']])))
         else:
             n_drift += 1
             rep.add_drift('ext_lookup_' + clause, dict(case, observed=_compact(evs)))
@@ -403,7 +407,8 @@ def replay_case(case):
     v = verdicts[tid]
     if v.startswith('property:'):
         name, _, what = v.split(':', 1)[1].partition('@')
-        print(json.dumps({'answers': _first_bad_answer(observed[tid], what)})[:3000])
+        what, _, where = what.partition('#')
+        print(json.dumps({'answers': _first_bad_answer(observed[tid], what, where)})[:3000])
         print('VIOLATION property=C18 (extension Lookup)')
         print('  clause=%s%s signature=lookup:%s:%s' % (PREFIX, name, name, what))
         return 1
